@@ -111,7 +111,7 @@ impl Prop for C16 {
     type Case = Case;
     const ID: &'static str = "C16";
     const NUM: u64 = 16;
-    const RULE: &'static str = "contiguous digraphs (order 1..24 quick / 1..70 thorough); every case converts the digraph from each of the four unweighted representations into each other one (12 ordered pairs, round trips compared with ==), into AdjacencyListWeighted<usize> and <isize> (8 conversions, all weights 1), and along a generated chain of 2..4 conversions; plus From<rows> (BTreeSet rows for AdjacencyList/AdjacencyMap, BTreeMap rows for AdjacencyListWeighted) and From<arcs> (AdjacencyMatrix, EdgeList) with generated valid inputs (duplicates, arbitrary order) and invalid ones (self-loop, head >= row count, empty). About one random case in 25 has a large order (17..140, weighted towards 63..66, 96, 127..130, 140; at most 700 arcs). A low-rate 'huge' leg adds digraphs of 200..3100 vertices with O(n) arcs (paths, circuits, stars, wheels, trees, one row of exactly 255/256/257 out-neighbours, arcs in the last rows, complete below 300). Non-trivial = size >=2 and order >=9 (bit matrix spans two words), or an invalid row/arc input; distinct = distinct serialised case.";
+    const RULE: &'static str = "contiguous digraphs (order 1..24 quick / 1..70 thorough); every case converts the digraph from each of the four unweighted representations into each other one (12 ordered pairs, round trips compared with ==), into AdjacencyListWeighted<usize> and <isize> (8 conversions, all weights 1), and along a generated chain of 2..4 conversions; plus From<rows> (BTreeSet rows for AdjacencyList/AdjacencyMap, BTreeMap rows for AdjacencyListWeighted) and From<arcs> (AdjacencyMatrix, EdgeList) with generated valid inputs (duplicates, arbitrary order) and invalid ones (self-loop, head >= row count, empty). About one random case in 25 has a large order (17..140, weighted towards 63..66, 96, 127..130, 140; at most 700 arcs). A low-rate 'huge' leg adds digraphs of 200..3100 vertices with O(n) arcs (paths, circuits, stars, wheels, trees, one row of exactly 255/256/257 out-neighbours, arcs in the last rows, complete below 300). Rows and arcs are also passed through iterators with inexact size hints (filter, from_fn, chain+take_while) and must behave exactly like the Vec. Non-trivial = size >=2 and order >=9 (bit matrix spans two words), or an invalid row/arc input; distinct = distinct serialised case.";
     const ASSUMPTIONS: &'static [&'static str] = &[
         "an empty arc iterator handed to EdgeList::from is only required to give a digraph with at least one vertex (the documentation does not promise a panic)",
     ];
